@@ -18,12 +18,14 @@ one of six strategies on it. This file composes
 
 The six strategies are the CLI sections `grd, com, stm, stmca, stmcb, stmng` (`secOf`); `solveAdfF fuel`
 is the solve task written with `CliF.runSectionF`, i.e. with the fuel-based model `SM.ngSearch .simple
-fuel` of `stable_nogood(Simple)`; it IS `ServerAdf.solveAdf` for the five strategies that run no
-nogood search (`solveAdfF_eq`, by `rfl`). For `StableNogood`, `ServerAdf.solveAdf` calls
-`NgModel.ngAll`, whose loop is a `partial def`: the kernel sees an opaque constant, nothing can be
-proved about it. So the theorem about `solveAdf` itself (`solveAdf_answers_exact_partial`) covers five
-strategies, and `stored_answers_exact` is about `solveAdfF` (all six; `StableNogood` with the same
-"the search halted within the bound" hypothesis as C15, discharged for every large bound). -/
+fuel` of `stable_nogood(Simple)`. `ServerAdf.solveAdf`, the model the driver runs, uses the same
+search with the fixed bound 10^6, so `solveAdf = solveAdfF 1000000` for ALL six strategies (by `rfl`
+per strategy: `C16.solve_model_is_bound_instance`) and `solveAdfF fuel = solveAdf` for every `fuel` on
+the five strategies that run no nogood search (`solveAdfF_eq`). `stored_answers_exact*` are about
+`solveAdfF` (all six; `StableNogood` under the hypothesis "the search halted within the bound", as in
+C15, discharged for every large bound); `solveAdf_answers_exact_no_search` is the bound-free statement
+about `solveAdf` itself for the five strategies without search (complete as it stands: the sixth
+strategy is `C16.stored_answers_exact_driver_model`). -/
 namespace SrvA
 open ServerM ServerAdf
 
@@ -581,10 +583,9 @@ theorem stored_answers_exact_every_large_bound (a : SAdf) (n : Nat) (fms : List 
   exact ⟨F0, fun fuel hf => ⟨h0 fuel hf, stored_answers_exact_any_table fuel a _ fms s h (h0 fuel hf)⟩⟩
 
 /-- **the model the driver runs** (`ServerAdf.solveAdf`), the five strategies without nogood search:
-no hypothesis about bounds. (Missing for the sixth: `solveAdf` calls `NgModel.ngAll`, a `partial def`
-loop — opaque to the kernel; with `SM.ngSearch .simple fuel` in that arm, `solveAdf = solveAdfF fuel`
-and `stored_answers_exact_any_table` applies verbatim.) -/
-theorem solveAdf_answers_exact_partial (a : SAdf) (n : Nat) (fms : List Fm) (s : Strategy)
+no hypothesis about bounds (for the sixth, `solveAdf = solveAdfF 1000000` and
+`stored_answers_exact_any_table` applies under its halting hypothesis) -/
+theorem solveAdf_answers_exact_no_search (a : SAdf) (n : Nat) (fms : List Fm) (s : Strategy)
     (h : Denotes a n fms) (hs : s ≠ .stableNogood) :
     ∃ res, solveAdf a s = .ok res ∧
       (storedI3 res).Perm (Cli.specSection n (CliF.tablesOf n fms) (secOf s)) := by
@@ -677,7 +678,7 @@ theorem stored_answers_definitional (fuel : Nat) (a : SAdf) (n : Nat) (fms : Lis
 end SrvA
 #print axioms SrvA.stored_answers_exact_any_table
 #print axioms SrvA.stored_answers_exact_every_large_bound
-#print axioms SrvA.solveAdf_answers_exact_partial
+#print axioms SrvA.solveAdf_answers_exact_no_search
 #print axioms SrvA.parseNaive_denotes
 #print axioms SrvA.stored_answers_exact
 #print axioms SrvA.stored_answers_definitional
